@@ -317,7 +317,6 @@ func fieldAt(v AV, path []int) AV {
 	return v
 }
 
-
 // ---- reference semantics (the property statement, executed on the checker's side) ----
 
 // normCfg is a configuration with normalised keys: leaves only.
